@@ -185,6 +185,21 @@ func c01(c *Ctx) {
 	c.RunEvalCases()
 	unicodeStreamC01(c)
 	c.RunEvalCases()
+	// a struct with an exported field and an UNEXPORTED twin that differs only in letter case: the
+	// unexported field is not part of the document, the exported one is found under every casing
+	{
+		twin := &D{Tag: "st", Fs: []h.Field{{Name: "name", Exported: false, Iface: true, V: h.Str("hidden")}, {Name: "Name", Exported: true, Iface: true, V: h.Str("shown")},
+			{Name: "ID", Exported: true, Iface: true, V: h.FloatD(7)}, {Name: "id", Exported: false, Iface: true, V: h.FloatD(-1)}}}
+		for _, q := range []struct {
+			q    string
+			want *D
+		}{{"$.t.name", h.Str("shown")}, {"$.t.Name", h.Str("shown")}, {"$.t.NAME", h.Str("shown")}, {"$.t.id", h.FloatD(7)}, {"$.t.ID", h.FloatD(7)}, {"$.ts.Id", h.SliceAny(h.FloatD(7), h.FloatD(7))}, {"$.ts.nAME", h.SliceAny(h.Str("shown"), h.Str("shown"))}} {
+			ec := c.AddEval(q.q, h.Obj("t", twin, "ts", h.SliceAny(twin, twin)), "unexported-twin-field", true, true)
+			w := lres{kind: "found", val: h.Abs(q.want)}
+			ec.Check = func(o h.Outcome) string { return checkLookup(o, w) }
+		}
+		c.RunEvalCases()
+	}
 
 	// random larger documents
 	n := c.N(6000, 200000)
